@@ -1084,6 +1084,9 @@ pub fn run(mut sc: Scenario, scratch: &str) -> RunLog {
         if sc.probe && n >= 2 && !sc.entities[0].scripted && !sc.entities[1].scripted {
             s.rules_on = false;
             s.scripts.clear();
+            // slow enough for the Report request below to find the transaction alive
+            s.latency_us = s.latency_us.max(5_000);
+            s.paced = true;
             let content: Vec<u8> = (0..150u32).map(|i| (i * 7 + 3) as u8).collect();
             std::fs::write(format!("{}/probe_src", roots2[0]), &content).ok();
             let tr = s.transfers.len();
